@@ -6,7 +6,7 @@ worktree (VERIF_REPO) with the change applied, and stores everything under /veri
 import json, os, re, shutil, subprocess, sys, time
 V = os.path.dirname(os.path.dirname(os.path.abspath(__file__)))
 wt, var, checks = sys.argv[1], sys.argv[2], sys.argv[3:]
-sd = os.path.join(wt, "SEEDED", var)
+sd = os.path.join(wt, os.environ.get("SEEDED_DIR", "SEEDED"), var)
 meta = json.load(open(os.path.join(sd, "meta.json")))
 prop = meta.get("property", checks[0])
 env = dict(os.environ, CARGO_NET_OFFLINE="true", CARGO_TARGET_DIR=os.path.join(wt, "target"))
@@ -21,7 +21,7 @@ def sh(cmd, cwd=wt, timeout=3000, extra=None):
 demos = [f for f in os.listdir(sd) if f.endswith(".rs")]
 scripts = [f for f in os.listdir(sd) if f.endswith(".sh")]
 res = {"worktree": wt, "variant": var}
-sh("git checkout -q -- . && git clean -fdq -e SEEDED -e target")
+sh("git checkout -q -- . && git clean -fdq -e SEEDED -e SEEDED2 -e target")
 def place_demos():
     for d in demos:
         crate = "tackler-core"
@@ -72,8 +72,8 @@ for c in checks:
     m = re.search(r"replay=(\S+)", "\n".join(lines))
     if m and os.path.exists(m.group(1)):
         res["checks"][c]["first_replay_what"] = json.load(open(m.group(1))).get("what")
-sh("git checkout -q -- . && git clean -fdq -e SEEDED -e target")
-out = os.path.join(V, "seeded", "%s-%s" % (prop, var))
+sh("git checkout -q -- . && git clean -fdq -e SEEDED -e SEEDED2 -e target")
+out = os.path.join(V, "seeded", "%s-%s%s" % (prop, os.environ.get("SEEDED_TAG", ""), var))
 os.makedirs(out, exist_ok=True)
 shutil.copy(os.path.join(sd, "patch.diff"), out)
 for d in demos + scripts:
